@@ -17,14 +17,20 @@
       reduction started is changed (`setpath_isolated_slices`, `emitted_stable_slices`, `code_readonly_slices`);
     * under label uniqueness the in-place writes are unobservable and the result is `setpath`
       (`upd_unobservable_slices`); every iteration of `_modify` re-establishes the invariant
-      (`invariant_preserved_slices`); `_modify` computes its defining reduction
-      (`modify_refines_slices_partial`);
+      (`invariant_preserved_slices`); `delpaths` through slices denotes mark-then-sweep on plain values
+      (`delpaths_slices_refines`); `_modify` IN FULL — outputs stored, paths with an `empty` update query
+      collected and deleted at the end — computes its defining reduction (`modify_refines_slices`);
+    * `_assign` (`paths = $x`) computes its defining reduction and is isolated (`assign_refines_slices`,
+      `assign_isolated_slices`);
     * every registered cell is live (`registered_cells_live_slices`) — FALSE of the tree before bcc8a71,
       which this model found (`dead_registration_before_bcc8a71`; replay in known-findings.txt).
-  Not proved: paths at which the update query is `empty` (deferred `delpaths` through slice paths: the
-  marking pass is modelled and confined, its value-level meaning is not stated).
+    * `delpaths` through slices deletes, all at once, the positions the paths denote in the ORIGINAL
+      value, in any order (C02 item 3: `delpaths_slices_original_indices`, `delpaths_slices_order_irrelevant`;
+      `normP p v` = the key/index paths a path with slices denotes in `v`).
 -/
 import Gojq.Proofs.HeapSliceChain
+import Gojq.Proofs.HeapSliceDel
+import Gojq.Proofs.HeapSliceSpec
 import Gojq.Proofs.HeapSliceOld
 import Gojq.Props.C05
 namespace Gojq.C05Slices
@@ -136,31 +142,80 @@ theorem invariant_preserved_slices (q : T → Nat → T × Nat) (hq : QOK q) (v 
   obtain ⟨i1, hc, hl, hx, _⟩ := modifyStepS_sound q hq v A f p v' A' f' log h inv
   exact ⟨i1, applyLog_id log v' hc, hl, hx⟩
 
-/-- ⟦full⟧ C02.4 restricted to what the model states at value level: `_modify` over every list of
-    paths with keys, indices and slices, with an update query that yields an output at every path,
-    started with an empty allocator, computes the defining reduction
-    `reduce path(paths) as $p (.; setpath($p; getpath($p) | q))`.
-    (The part of C02.4 beyond this statement: paths at which the update query is `empty`, which are
-    collected and deleted at the end by `_delpaths`; for key/index paths that is
-    `C02Heap.modify_refines_partial`, for slice paths the marking pass is modelled (`markS`) and confined
-    (`delpaths_slices_write_confined`) but its value-level meaning is not stated.) -/
-def modify_refines_slices_statement : Prop :=
-  ∀ (q : T → Nat → T × Nat) (qv : JV → JV), QOK q → (∀ x f, abs (q x f).1 = qv (abs x)) →
-    ∀ (ps : List PathS) (v : T) (f : Nat) (r : T × List Nat × Nat), (∀ j ∈ v.ids, j < f) →
-      modifyAllS q ps (v, [], f) = some r → modifyVS qv ps (abs v) = some (abs r.1)
+/-- **`delpaths` through slice paths refines mark-then-sweep on plain values** (C02.4 for `delpaths`,
+    `del(.[a:b])`, and the deferred deletions of `|=`): func.go's `delpaths` with an allocator — every
+    path marked with the placeholder through `update`, in place in owned containers and through views of
+    owned arrays, into registered copies otherwise, whole slices marked element by element, arrays that
+    carried marked elements dropped and unregistered; then `deleteEmpty` over the owned containers —
+    returns, whenever it succeeds, what the same two passes compute on a plain value without allocator,
+    labels and in-place writes (`delpathsVS`), for every list of paths of keys, indices and slices, every
+    allocator below the counter and every value without placeholders. -/
+theorem delpaths_slices_refines (A : List Nat) (f : Nat) (ps : List PathS) (v : T) r
+    (hfree : holeFree v) (hv : ∀ j ∈ v.ids, j < f) (hA : ∀ a ∈ A, a < f) (h : delpathsST A f ps v = some r) :
+    delpathsVS ps (abs v) = some (abs r.1) :=
+  delpathsST_abs A f ps v r hfree hv hA h
 
-/-- **`_modify` refines its defining reduction, paths with slices** — `modify_refines_slices_partial`
-    (partial with respect to C02.4 as explained at `modify_refines_slices_statement`; the statement
-    itself is proved in full): for every list of paths, in any order and however they overlap — a slice
-    and an index into it, a slice and the same slice again (D5's second witness), slices that share
-    capacity with the array they cut (D3), slices that grow or shrink the array, paths through values
-    stored by earlier updates — and every update query that builds its output from parts of its input
-    and containers of its own, the allocator-based reduction with its in-place writes, writes through
-    views, `release`/clone before each query and `free` of every array it drops returns exactly what
-    the reduction over plain values returns. -/
-theorem modify_refines_slices_partial : modify_refines_slices_statement := by
-  intro q qv hq habs ps v f r hv h
-  exact (modifyAllS_sound q qv hq habs ps v [] f r (inv_empty v f hv) h).1
+/-- on paths WITHOUT slices `delpathsVS` is the structural `delpaths` of Model/Heap.lean ("the positions the
+    paths denote in the original value", C02Heap.delpaths_original_indices), whenever it succeeds -/
+theorem delpaths_slices_extends_delpaths (ps : List Path) (w z : JV) (hwf : JV.wf w = true)
+    (h : delpathsVS (ps.map (List.map PE.toS)) w = some z) : z = delpaths ps w :=
+  delpathsVS_plain ps w z hwf h
+
+/-- **Mark-then-sweep through slice paths deletes the positions that the paths denote in the ORIGINAL
+    value** (C02 item 3 for slices, `delpaths_original_indices`): a path with slices denotes in a value
+    the key/index paths `normP p v` — every slice resolved with `clampIndex` against the length of the
+    array it cuts, a slice at the end of a path denoting every index of its range —; marking replaces
+    elements by placeholders and never changes a length or a key, so every path of the list is resolved
+    as in the original value however many paths were marked before it; func.go's `delpaths` — with its
+    allocator, in-place writes, views and copies — returns, whenever it succeeds, the structural
+    `delpaths` of Model/Heap.lean for the denoted key/index paths: all positions removed at once. -/
+theorem delpaths_slices_original_indices (A : List Nat) (f : Nat) (ps : List PathS) (v : T) r
+    (hfree : holeFree v) (hwf : JV.wf (abs v) = true) (hv : ∀ j ∈ v.ids, j < f) (hA : ∀ a ∈ A, a < f)
+    (h : delpathsST A f ps v = some r) :
+    abs r.1 = delpaths (ps.flatMap (normP · (abs v))) (abs v) :=
+  delpathsVS_spec ps (abs v) (abs r.1) hwf (delpathsST_abs A f ps v r hfree hv hA h)
+
+/-- … hence **independently of the order of the paths**: whenever two orders of the same slice/index/key
+    paths both succeed, with whatever allocators, `delpaths` returns the same value -/
+theorem delpaths_slices_order_irrelevant (A A' : List Nat) (f f' : Nat) (ps ps' : List PathS) (v : T) r r'
+    (hfree : holeFree v) (hwf : JV.wf (abs v) = true) (hv : ∀ j ∈ v.ids, j < f) (hA : ∀ a ∈ A, a < f)
+    (hv' : ∀ j ∈ v.ids, j < f') (hA' : ∀ a ∈ A', a < f') (hp : ps.Perm ps')
+    (h : delpathsST A f ps v = some r) (h' : delpathsST A' f' ps' v = some r') : abs r.1 = abs r'.1 := by
+  rw [delpaths_slices_original_indices A f ps v r hfree hwf hv hA h,
+    delpaths_slices_original_indices A' f' ps' v r' hfree hwf hv' hA' h']
+  exact delpaths_perm _ _ _ (List.Perm.flatMap_right _ hp)
+
+/-- ⟦full⟧ C02.4 for paths of keys, indices and slices: `_modify` in full — for every list of paths and
+    every update query that at each path either yields an output or is `empty` (the path is then
+    collected and all collected paths are deleted at the end by `_delpaths`), started with an empty
+    allocator on a value without placeholders — computes the defining reduction `modifyVFullS` (jq 1.7's
+    `_modify`: first output stored with `setpath`, deferred `delpaths`). -/
+def modify_refines_slices_statement : Prop :=
+  ∀ (q : T → Nat → Option (T × Nat)) (qv : JV → Option JV), QOK' q →
+    (∀ x f, (q x f).map (fun r => abs r.1) = qv (abs x)) →
+    ∀ (ps : List PathS) (v : T) (f : Nat) (r : T), (∀ j ∈ v.ids, j < f) → holeFree v →
+      modifyFullS q ps v f = some r → modifyVFullS qv ps (abs v) = some (abs r)
+
+/-- **`_modify` refines its defining reduction, paths with slices** — `modify_refines_slices`, the full
+    statement: for every list of paths, in any order and however they overlap — a slice and an index
+    into it, a slice and the same slice again (D5's second witness), slices that share capacity with the
+    array they cut (D3), slices that grow or shrink the array, paths through values stored by earlier
+    updates, paths whose update query is `empty` —, and every update query that builds its output from
+    parts of its input and containers of its own or is `empty` (`QOK'`), the allocator-based reduction
+    with its in-place writes, writes through views, `release`/clone before each query, `free` of every
+    array it drops and its final mark-then-sweep `_delpaths` returns exactly what the reduction over
+    plain values returns.  (`delpathsVS`, the two passes on plain values, deletes the positions the paths
+    denote in the value it is applied to: `delpaths_slices_original_indices`.) -/
+theorem modify_refines_slices : modify_refines_slices_statement := by
+  intro q qv hq habs ps v f r hv hf h
+  exact modifyFullS_sound q qv hq habs ps v f hv hf r h
+
+/-- the update-only fragment (every path gets an output), from an empty allocator -/
+theorem modify_refines_slices_updates_only (q : T → Nat → T × Nat) (qv : JV → JV) (hq : QOK q)
+    (habs : ∀ x f, abs (q x f).1 = qv (abs x)) (ps : List PathS) (v : T) (f : Nat) (r : T × List Nat × Nat)
+    (hv : ∀ j ∈ v.ids, j < f) (h : modifyAllS q ps (v, [], f) = some r) :
+    modifyVS qv ps (abs v) = some (abs r.1) :=
+  (modifyAllS_sound q qv hq habs ps v [] f r (inv_empty v f hv) h).1
 
 /-- the same from any state satisfying the invariant, with the invariant re-established at the end -/
 theorem modify_refines_slices_from_invariant (q : T → Nat → T × Nat) (qv : JV → JV) (hq : QOK q)
@@ -203,6 +258,40 @@ theorem code_readonly_slices (q : T → Nat → T × Nat) (hq : QOK q) (v : T) (
   rcases hrange e.1 (hlog e he) with h | h
   · cases h
   · exact h.1
+
+/-! ### `_assign` (`paths = $x`) -/
+
+/-- **`_assign` refines its defining reduction** (C02.4 for `=`; paths of keys, indices and slices —
+    for paths without slices `updS` is `upd`, `updS_extends_upd`): `reduce path(paths) as $p (.; setpath($p; $x))`
+    run with one allocator for the whole reduction — containers on the paths copied once and then
+    written in place, arrays cut by slices written in place when the length is unchanged — returns
+    exactly what the reduction over plain values returns, for every list of paths in any order and however
+    they overlap, when the value `$x` and the input exist before the reduction starts (labels below the
+    starting counter: `$x` is evaluated first, `compileAssign`).  Nothing is released here: the subtrees
+    an assignment replaces stay registered although dead — harmless for `_assign`, which never places a
+    container allocated after its start into the value (see checks.d/C05.json `assumptions`). -/
+theorem assign_refines_slices (n : T) (ps : List PathS) (v : T) (f : Nat) (r : T × List Nat × Nat)
+    (hv : ∀ j ∈ v.ids, j < f) (hn : ∀ j ∈ n.ids, j < f) (h : assignAllS n ps (v, [], f) = some r) :
+    assignVS (abs n) ps (abs v) = some (abs r.1) :=
+  (assignAllS_sound n f hn ps v [] f r (inv_empty v f hv) (Nat.le_refl _) (by simp) h).1
+
+/-- **`_assign` is isolated**: whatever the paths and values — no hypothesis on labels beyond an empty
+    allocator at the start —, every in-place write of every iteration goes to a cell allocated since the
+    reduction started; so the input, `$x`, constants and emitted values are unchanged
+    (`C05.shared_unchanged`) -/
+theorem assign_isolated_slices (n : T) (pre : List PathS) (p : PathS) (v : T) (f : Nat)
+    (r1 : T × List Nat × Nat) (h1 : assignAllS n pre (v, [], f) = some r1)
+    (r : T × List Nat × Nat × Log) (h2 : updS r1.2.1 r1.2.2 p r1.1 n = some r)
+    (t : T) (ht : ∀ j ∈ t.ids, j < f) :
+    (∀ e ∈ r.2.2.2, f ≤ e.1) ∧ applyLog r.2.2.2 t = t ∧ ∀ fuel, observe r.2.2.2 fuel t = t := by
+  have hw := assignAllS_writes n f (pre ++ [p]) v [] f (Nat.le_refl _) (by simp) pre p rfl r1 h1 r h2
+  exact ⟨hw, C05.shared_unchanged t f _ ht hw⟩
+
+/-- `[0,1,2,3] | (.[1:3], .[0]) = [9]` on the model: `[9,9,3]`… the slice is replaced by the ELEMENTS of
+    `$x`, then index 0 of the result is assigned -/
+example : (assignAllS (.node 5 false 1 [([], .leaf (.num (.int 9)))]) [[.slice (some 1) (some 3)], [.idx 0]]
+      (.node 0 false 4 [([], .leaf (.num (.int 0))), ([], .leaf (.num (.int 1))), ([], .leaf (.num (.int 2))), ([], .leaf (.num (.int 3)))], [], 10)).map
+      (fun r => abs r.1) = some (.arr [.arr [.num (.int 9)], .num (.int 9), .num (.int 3)]) := by rfl
 
 /-! ### registered cells are live -/
 
@@ -279,6 +368,20 @@ example : (modifyAllS dup [[.slice (some 1) none], [.slice (some 1) none]]
       (.node 0 false 2 [([], .leaf (.num (.int 0))), ([], .leaf (.num (.int 1)))], [], 10)).map (fun r => abs r.1) =
     some (.arr [num 0, .arr [.arr [num 1], .arr [num 1]], .arr [.arr [num 1], .arr [num 1]]]) := by rfl
 
+/-- `[0,1,2,3] | (.[1:3], .[0]) |= empty` on the model: both paths are collected and deleted at the end —
+    `[3]` (as jq 1.7; the slice is marked element by element in the copy made for it) -/
+example : (modifyFullS (fun _ _ => none) [[.slice (some 1) (some 3)], [.idx 0]] arr0123 10).map abs =
+    some (.arr [num 3]) := by rfl
+
+/-- `[0,1,2,3] | (.[1:3], .[0]) |= (if type == "array" then empty else 7 end)`-like: `empty` on the slice, an
+    output at the index; the value-level reduction gives the same -/
+example : (modifyFullS (fun x f => match x with | .node _ _ _ _ => none | _ => some (.leaf (.num (.int 7)), f))
+      [[.slice (some 1) (some 3)], [.idx 0]] arr0123 10).map abs = some (.arr [num 7, num 3]) := by rfl
+example : modifyVFullS (fun x => match x with | .arr _ => none | _ => some (num 7))
+      [[.slice (some 1) (some 3)], [.idx 0]] (.arr [num 0, num 1, num 2, num 3]) = some (.arr [num 7, num 3]) := by
+  simp [modifyVFullS, modifyVAuxS, getpathS, setpathS, sliceV, sliceBounds, clampIndex, resolve, num, delpathsVS,
+    markAllHS, markHS, specB, specBA, subPaths, sweepV, sweepVA, scOf, Sc.toJV]
+
 /-- the hypotheses of `upd_unobservable_slices` are satisfiable with owned cells present and the write
     going THROUGH A VIEW in place: the owned array 5 = `[1,2,3]`, path `.[0:2][1]` -/
 example : Hyp [5] 10 (.node 5 false 3 [([], .leaf (.num (.int 1))), ([], .leaf (.num (.int 2))), ([], .leaf (.num (.int 3)))]) (.leaf (.bool true)) where
@@ -311,5 +414,13 @@ example : (delpathsST [] 10 [[.slice (some 1) (some 3)]] arr0123).map (fun r => 
 example : setpathS [.slice (some 1) none, .idx 0] (.arr [num 1, num 2, num 3]) (num 9) = some (.arr [num 1, num 9, num 3]) := by rfl
 example : getpathS [.slice (some (-2)) none, .idx 0] (.arr [num 1, num 2, num 3]) = some (num 2) := by rfl
 example : Inv [] 10 arr0123 := inv_empty _ _ (by intro j hj; simp [arr0123, T.ids, idsK] at hj; omega)
+
+/-- `normP` on `[0,1,2,3]`: `.[1:3]` denotes the indices 1 and 2, `.[1:][-1]` the index 3, `.[1:][:1]` the index 1 -/
+example : normP [.slice (some 1) (some 3)] (.arr [num 0, num 1, num 2, num 3]) = [[.idx 1], [.idx 2]] := by
+  simp [normP, sliceBounds, clampIndex, List.range, List.range.loop]
+example : normP [.slice (some 1) none, .idx (-1)] (.arr [num 0, num 1, num 2, num 3]) = [[.idx 3]] := by
+  simp [normP, sliceBounds, clampIndex, sliceV, resolve, shiftIdx, num]
+example : normP [.slice (some 1) none, .slice none (some 1)] (.arr [num 0, num 1, num 2, num 3]) = [[.idx 1]] := by
+  simp [normP, sliceBounds, clampIndex, sliceV, shiftIdx, List.range, List.range.loop]
 
 end Gojq.C05Slices
